@@ -34,7 +34,8 @@ TNext == /\ Len(hist) < Depth
               /\ LET res == StepOf(S, st)
                  IN  /\ S' = res.S
                      /\ hist' = Append(hist, [c |-> st[1], cmd |-> st[2], r |-> res.r, post |-> StateFullJ(res.S),
-                                              dv |-> res.dv, rel |-> res.rel, tol |-> res.tol])
+                                              dv |-> res.dv, rel |-> res.rel, tol |-> res.tol,
+                                              proto |-> IF st[1] = 0 THEN 0 ELSE res.S.conn[st[1]].proto])
          /\ UNCHANGED <<devs, step, op>>
 TSpec == TInit /\ [][TNext]_tvars
 
